@@ -11,7 +11,7 @@ from .core import Streams
 WQ = ["qint8", "qint4", "qint2", "qfloat8", "qfloat8_e4m3fn", "qfloat8_e5m2"]
 AQ = ["qint8", "qfloat8", "qfloat8_e4m3fn", "qfloat8_e5m2"]
 DT = ["float32", "float16", "bfloat16"]
-FEATS_COMMON = [1, 8, 16, 31, 32, 33, 48, 64]
+FEATS_COMMON = [1, 2, 3, 8, 16, 31, 32, 33, 48, 64]
 FEATS_WIDE = [96, 128, 129, 136, 160, 192, 256, 288, 320]
 ACTS = ["relu", "gelu", "silu", "softmax", "id", "drop", "scale"]
 WCLS = ["noise", "noise", "noise", "uniform", "onesided", "offset", "exact"]
@@ -78,7 +78,7 @@ class Planner:
             "interrupt": r.random() < 0.5,
             "streamline": r.choice([True, False, None]),
             "grad": r.choice(["no_grad", "no_grad", "enable_grad", None]),
-            "containers": subset(r, ["seq", "chain", "res"], 0.6),
+            "containers": subset(r, ["seq", "chain", "res"], 0.6) + (["seqslice"] if r.random() < 0.25 else []),
             "ln": r.random() < 0.6,
             "explicit_opt": r.random() < 0.3,
             "filter": r.random() < 0.3,
@@ -146,7 +146,7 @@ class Planner:
             return False
         if spec["k"] in ("lin", "conv"):
             return True
-        if spec["k"] in ("seq", "chain"):
+        if spec["k"] in ("seq", "chain", "seqslice"):
             return any(self.has_quantizable(c) for c in spec["c"])
         if spec["k"] == "res":
             return self.has_quantizable(spec["body"])
@@ -155,7 +155,7 @@ class Planner:
     def wrap(self, items):
         """Nest a flat list into containers (depth <= 3)."""
         r = self.rng
-        kinds = [k for k in self.sw["containers"] if k in ("seq", "chain")] or ["seq"]
+        kinds = [k for k in self.sw["containers"] if k in ("seq", "chain", "seqslice")] or ["seq"]
         if len(items) >= 3 and r.random() < 0.5:
             cut = r.randint(1, len(items) - 1)
             inner = {"k": r.choice(kinds), "c": items[:cut]}
@@ -614,6 +614,8 @@ def h_load(P, ops, fid, target=None, restart=None):
         "weights_only": r.random() < 0.7,
         "init": P.S.sub("reinit", a.id),
     }
+    if op["target"] == "same" and r.random() < 0.3:
+        op["warm"] = {"seed": P.S.sub("warm", a.id) % (1 << 30), "lead": [r.choice([1, 2, 3])] if src.family == "cnn" else [r.choice([1, 2, 4])]}
     if r.random() < 0.4:
         op["reorder"] = r.choice(["reverse", "strings_first", "perm"])
         op["perm_seed"] = P.S.sub("perm", a.id) % 100000
@@ -700,6 +702,9 @@ def lifecycle(P, ops, table, n, faults=False):
                 P.forward(ops, a, fresh=False, fault=False)
         elif k == "train":
             h_train(P, ops, a)
+        elif k == "trainable":
+            P.emit(ops, {"op": "set_trainable", "dep": a.id, "weights": r.random() < 0.4, "biases": r.random() < 0.8})
+            h_train(P, ops, a, lr_p=0.2)
         elif k == "calib_train":
             # training while calibrating (quantization-aware fine-tuning inside the context), incl. two forwards
             # sharing one backward
@@ -814,7 +819,7 @@ def plan_c11(P):
     ops = []
     P.sw["qinput"] = False
     deps = prelude(P, ops, calib_p=0.85)
-    table = [("train", 8), ("wupdate", 3), ("forward", 2), ("freeze", 1), ("newdep", 0.7), ("calib", 1.2), ("saveload", 0.3), ("calib_train", 1.5)]
+    table = [("train", 8), ("wupdate", 3), ("forward", 2), ("freeze", 1), ("newdep", 0.7), ("calib", 1.2), ("saveload", 0.3), ("calib_train", 1.5), ("trainable", 1.0)]
     lifecycle(P, ops, table, r.randint(3, 9), faults=False)
     return ops
 
